@@ -192,8 +192,11 @@ impl Idle {
                     Err(e) => {
                         // The data frame was handed to the radio: conclude the uplink so that
                         // its frame counter is never used for another frame.
-                        if let Frame::Data = frame {
-                            let _ = mac.rx2_complete();
+                        if let Frame::Data = frame
+                            && let mac::Response::SessionExpired = mac.rx2_complete()
+                        {
+                            // that was the last frame counter of the session
+                            return (State::Idle(self), Ok(Response::SessionExpired));
                         }
                         (State::Idle(self), Err(super::Error::Radio(e)))
                     }
